@@ -7,7 +7,9 @@ pub mod c06;
 pub mod c07;
 pub mod c08;
 pub mod c09;
+pub mod c10;
 pub mod c13;
+pub mod c14;
 pub mod c20;
 
 use crate::engine::sched::{Choice, Cost, ScenarioFactory};
@@ -38,7 +40,9 @@ dispatch! {
     "C07" => c07,
     "C08" => c08,
     "C09" => c09,
+    "C10" => c10,
     "C13" => c13,
+    "C14" => c14,
     "C20" => c20,
 }
 
